@@ -36,6 +36,7 @@ Fault gen_loop_fault(Rng &r, const FontImage &fi);
 Fault gen_pseudo_fault(Rng &r, const FontImage &fi);
 Fault gen_gid_fault(Rng &r, const FontImage &fi, const std::vector<u32> &cps);
 extern int g_pseudo_bias;
+extern u32 g_pseudo_focus;
 void gen_faults(Rng &r, const FontImage &fi, int source, std::vector<Fault> &out, int maxn = 4);
 std::vector<u32> sample_cps(Rng &r, const std::string &font, size_t n);
 
